@@ -358,11 +358,13 @@ def case_dataframe(ctx, n):
     new_time = np.array([t0 + np.timedelta64(x, "s") for x in targets])
     dr = ctx.reals("dir", n)
     hs = ctx.reals("hs", n)
-    cols = {"time": time, "meanDirection": dr, "significantWaveHeight": hs}
+    dr2 = ctx.reals("dir2", n)
+    cols = {"time": time, "meanDirection": dr, "significantWaveHeight": hs, "mean_direction_degrees": dr2}
     frame = _Frame(cols) if ctx.mode == "sym" else pd.DataFrame(cols)
     out = ctx.noraise("D-DF.noraise", interpolate_dataframe_time, frame, new_time)
     gd = np.asarray(out["meanDirection"].values, dtype=object if ctx.mode == "sym" else float)
     gh = np.asarray(out["significantWaveHeight"].values, dtype=object if ctx.mode == "sym" else float)
+    gd2 = np.asarray(out["mean_direction_degrees"].values, dtype=object if ctx.mode == "sym" else float)
     ctx.reach("D-DF")
     for j, x in enumerate(targets):
         if x < secs[0] or x > secs[n - 1]:
@@ -378,6 +380,11 @@ def case_dataframe(ctx, n):
                   div_uf=True)
         ctx.check(ctx.And(ctx.le(0, gd[j]), ctx.lt(gd[j], 360)), "D-DF.window",
                   info=dict(target=x, what="direction column returned in [0,360)"))
+        # any column whose name CONTAINS "direction" is angular (same rule as the dataset entry points)
+        dsh2 = ctx.mod(dr2[k + 1] - dr2[k] + 180, 360) - 180
+        ctx.check(ctx.is_multiple(gd2[j] - (dr2[k] + dsh2 * w), 360), "D-DF.shortarc",
+                  info=dict(target=x, column="mean_direction_degrees"), div_uf=True)
+        ctx.check(ctx.And(ctx.le(0, gd2[j]), ctx.lt(gd2[j], 360)), "D-DF.window", info=dict(column="mean_direction_degrees"))
 
 
 def case_dataset_tracks(ctx, nvars=2):
